@@ -788,6 +788,18 @@ fn server_part(thorough: bool, evals: &AtomicU64, nontrivial: &AtomicU64) -> Vec
             cases.push((format!("frame {i} length prefix := {p}"), d.concat(), true));
         }
     }
+    // a Put whose path is REFUSED, cut after every byte (the server must stop draining when its input ends)
+    for bad in ["../x", "", "/abs/x"] {
+        let body: Vec<u8> = (0..100u8).collect();
+        let mut sess = frames[0].clone();
+        sess.extend_from_slice(&frames[1]);
+        sess.extend(framed(&cbor(&Request::Put { path: bad.into(), expected: None, len: body.len() as u64, hash: h(&body) })));
+        let head = sess.len();
+        sess.extend_from_slice(&body);
+        for t in (head..sess.len()).step_by(if thorough { 1 } else { 9 }) {
+            cases.push((format!("refused Put({bad:?}) with 100 content bytes, input closed after {} of them", t - head), sess[..t].to_vec(), false));
+        }
+    }
     // thorough: every cut point of EVERY mutated session above (drop / duplicate / swap / prefix mutation / banner)
     if thorough {
         let base: Vec<(String, Vec<u8>, bool)> = cases.iter().filter(|c| !c.0.starts_with("reference session cut")).cloned().collect();
